@@ -250,7 +250,25 @@ class C15(Prop):
                 variants = [variants[k % 3], variants[3 + k % 2]] if k % 2 else variants[:3]
             for (oname, oflags) in variants:
                 outp = os.path.join(d, f"r{k}_{oname}")
-                cmd = [repo_bin("bigwigmerge")] + sum([["-b", b] for b in bws], []) + flags + oflags + [outp]
+                # the inputs are named in every way the tool offers: -b each, one -l list, -b plus a list, several -l lists
+                how = (k + len(oname)) % 5
+                def lst(j, files):
+                    lp = os.path.join(d, f"list{k}_{oname}_{j}.txt")
+                    open(lp, "w").write("".join(f + "\n" for f in files))
+                    return ["-l", lp]
+                if how == 0 or len(bws) < 2:
+                    named = sum([["-b", b] for b in bws], [])
+                elif how == 1:
+                    named = lst(0, bws)
+                elif how == 2:
+                    named = ["-b", bws[0]] + lst(0, bws[1:])
+                elif how == 3:
+                    h = (len(bws) + 1) // 2
+                    named = lst(0, bws[:h]) + lst(1, bws[h:])
+                else:
+                    named = ["-b", bws[0]] + sum([lst(j, [b]) for j, b in enumerate(bws[1:])], [])
+                rep.tag(("inputs_named_b_only", "inputs_named_one_list", "inputs_named_b_and_list", "inputs_named_two_lists", "inputs_named_b_and_many_lists")[how if len(bws) >= 2 else 0])
+                cmd = [repo_bin("bigwigmerge")] + named + flags + oflags + [outp]
                 try:
                     p = subprocess.run(cmd, capture_output=True, text=True, timeout=120)
                 except subprocess.TimeoutExpired:
